@@ -37,6 +37,8 @@ func init() {
 			{ID: "C19-R11", Title: "a wrapper returns its Go namesake's result as it is", Floor: 20, Run: wrapperResultsNotReinterpreted},
 			{ID: "C19-R12", Title: "the json codec and json.marshal hand the same value to encoding/json", Floor: 1, Run: jsonCodecAndModuleEncodeTheSameThing},
 			{ID: "C19-R13", Title: "a byte of a string does not stand for a character", Floor: 1, Run: stringBytesAreNotCharacters},
+			{ID: "C19-R14", Title: "Repeat counts from scripts are validated", Floor: 1, Run: repeatCountsAreValidated},
+			{ID: "C19-R15", Title: "containers never encode as JSON null", Floor: 2, Run: containersNeverEncodeAsNull},
 		},
 	})
 }
